@@ -47,6 +47,7 @@ def plan(tier, seed):
     for kind, n in SHARDS[tier]:
         for i in range(n):
             specs.append({"kind": kind, "idx": i, "n": n, "budget_s": 40 if tier == "quick" else 235})
+    specs.append({"kind": "wide_items", "idx": 0, "n": 1})
     return specs
 
 
@@ -60,7 +61,7 @@ def finalize(agg, tier):
     need += ["guard_page_buffers", "in_place_calls", "scribbled_buffers", "xof_reads", "ctor_first", "final_combined", "reseek",
              "ptype:bytearray", "ptype:memoryview", "tagkind:bytearray", "tagkind:memoryview", "verify:ok", "verify:ValueError",
              "suite:exhaustive3", "suite:drizzle", "suite:empty", "suite:kinds_x_places", "suite:ptypes", "suite:random",
-             "suite:bigblock", "ccm:undeclared"]
+             "suite:bigblock", "ccm:undeclared", "wide_item_views"]
     for n in need:
         if not c.get(n):
             out.append("deciding counter %s is zero" % n)
@@ -68,7 +69,84 @@ def finalize(agg, tier):
 
 
 # ---------------------------------------------------------------------------------------------
+def w_wide_items(spec, ctx):
+    """The data arrives in a memoryview whose ITEMS are wider than a byte (array('H'/'I'/'Q'), a cast view): still a
+    memoryview, carrying nbytes octets.  The result must be the one for the same octets in a bytes object.  One mechanism
+    key for all classes (the classes are in the witness and in the counters)."""
+    import array
+    from Crypto.Hash import SHA1, SHA256, SHA512, SHA3_256, MD5, BLAKE2b, BLAKE2s, SHAKE128, cSHAKE128, KangarooTwelve, TurboSHAKE128, \
+        HMAC, CMAC, Poly1305, KMAC128, TupleHash128, keccak, RIPEMD160
+    from Crypto.Cipher import AES, DES3, ChaCha20, Salsa20, ARC4, ChaCha20_Poly1305, Blowfish
+    rng = ctx.rng
+    k16, k32, n12, n8 = rng.randbytes(16), rng.randbytes(32), rng.randbytes(12), rng.randbytes(8)
+
+    def U(o, d):
+        o.update(d)
+        return o
+    table = [("SHA1", lambda d: SHA1.new(d).digest()), ("SHA256", lambda d: U(SHA256.new(), d).digest()), ("SHA512", lambda d: SHA512.new(d).digest()),
+             ("SHA3_256", lambda d: SHA3_256.new(d).digest()), ("MD5", lambda d: MD5.new(d).digest()), ("RIPEMD160", lambda d: RIPEMD160.new(d).digest()),
+             ("keccak", lambda d: keccak.new(digest_bits=256, data=d).digest()),
+             ("BLAKE2b", lambda d: BLAKE2b.new(digest_bytes=32, data=d).digest()), ("BLAKE2s", lambda d: U(BLAKE2s.new(digest_bytes=16), d).digest()),
+             ("SHAKE128", lambda d: SHAKE128.new(d).read(32)), ("cSHAKE128", lambda d: cSHAKE128.new(data=d, custom=b"c").read(32)),
+             ("KangarooTwelve", lambda d: KangarooTwelve.new(data=d).read(32)), ("TurboSHAKE128", lambda d: TurboSHAKE128.new(data=d).read(32)),
+             ("HMAC", lambda d: HMAC.new(k16, d, SHA256).digest()), ("CMAC", lambda d: CMAC.new(k16, d, ciphermod=AES).digest()),
+             ("Poly1305", lambda d: Poly1305.new(key=k32, nonce=k16, cipher=AES, data=d).digest()),
+             ("KMAC128", lambda d: KMAC128.new(key=k16, data=d, mac_len=16).digest()), ("TupleHash128", lambda d: U(TupleHash128.new(digest_bytes=16), d).digest()),
+             ("AES-ECB", lambda d: AES.new(k16, AES.MODE_ECB).encrypt(d)), ("AES-CBC", lambda d: AES.new(k16, AES.MODE_CBC, iv=k16).encrypt(d)),
+             ("AES-CFB", lambda d: AES.new(k16, AES.MODE_CFB, iv=k16).encrypt(d)), ("AES-OFB", lambda d: AES.new(k16, AES.MODE_OFB, iv=k16).encrypt(d)),
+             ("AES-CTR", lambda d: AES.new(k16, AES.MODE_CTR, nonce=n8).encrypt(d)),
+             ("AES-GCM", lambda d: b"".join(AES.new(k16, AES.MODE_GCM, nonce=n12).encrypt_and_digest(d))),
+             ("AES-GCM.aad", lambda d: b"".join(U(AES.new(k16, AES.MODE_GCM, nonce=n12), d).encrypt_and_digest(b"m"))),
+             ("AES-EAX", lambda d: b"".join(AES.new(k16, AES.MODE_EAX, nonce=n12).encrypt_and_digest(d))),
+             ("AES-CCM", lambda d: b"".join(AES.new(k16, AES.MODE_CCM, nonce=n12[:11]).encrypt_and_digest(d))),
+             ("AES-OCB", lambda d: b"".join(AES.new(k16, AES.MODE_OCB, nonce=n12).encrypt_and_digest(d))),
+             ("AES-SIV", lambda d: b"".join(AES.new(k32, AES.MODE_SIV, nonce=n12).encrypt_and_digest(d))),
+             ("DES3-CBC", lambda d: DES3.new(DES3.adjust_key_parity(bytes(range(1, 25))), DES3.MODE_CBC, iv=n8).encrypt(d)),
+             ("Blowfish-CTR", lambda d: Blowfish.new(k16, Blowfish.MODE_CTR, nonce=n8[:4]).encrypt(d)),
+             ("ChaCha20", lambda d: ChaCha20.new(key=k32, nonce=n12).encrypt(d)), ("Salsa20", lambda d: Salsa20.new(key=k32, nonce=n8).encrypt(d)),
+             ("ARC4", lambda d: ARC4.new(k16).encrypt(d)),
+             ("ChaCha20_Poly1305", lambda d: b"".join(ChaCha20_Poly1305.new(key=k32, nonce=n12).encrypt_and_digest(d)))]
+    truncated, other, refused = [], [], []
+    for name, fn in table:
+        for code in ("H", "I", "Q"):
+            isz = array.array(code).itemsize
+            for n in (16, 48, 160):
+                raw = rng.randbytes(n)
+                a = array.array(code)
+                a.frombytes(raw)
+                want = fn(raw)
+                ctx.case(("wide-items", name, code, n))
+                ctx.count("wide_item_views")
+                try:
+                    got = fn(memoryview(a))
+                except (TypeError, ValueError, BufferError) as e:
+                    refused.append((name, code, type(e).__name__))       # refusing such a view is a definite answer, not a wrong result
+                    ctx.count("wide_item_views_refused:" + name)
+                    continue
+                except Exception as e:      # noqa  (an internal assertion is not an answer)
+                    other.append({"class": name, "item_format": code, "octets": n, "raised": repr(e)[:80]})
+                    continue
+                if got == want:
+                    ctx.ev()
+                    continue
+                # what would processing only len(view) = n / itemsize octets give?
+                try:
+                    short = fn(raw[:n // isz])
+                except Exception:       # noqa
+                    short = None
+                (truncated if got == short else other).append({"class": name, "item_format": code, "octets": n, "items": n // isz})
+    ctx.check(not truncated, "buffer-type[memoryview-of-wide-items]:only-len(view)-octets-processed",
+              "data given as a memoryview whose items are wider than a byte is silently cut to len(view) octets (the item count) "
+              "instead of its nbytes octets: the result is the one for a PREFIX of the data",
+              lambda: {"classes": sorted({t["class"] for t in truncated}), "examples": truncated[:4], "cases": len(truncated)})
+    ctx.check(not other, "buffer-type[memoryview-of-wide-items]:result-differs",
+              "data given as a memoryview whose items are wider than a byte gives a result that is neither the one for its octets "
+              "nor the one for their prefix", lambda: {"examples": other[:6]})
+
+
 def run(spec, ctx):
+    if spec["kind"] == "wide_items":
+        return w_wide_items(spec, ctx)
     from vf import guard
     from .c09lib import objs as O
     try:
